@@ -1,0 +1,113 @@
+//go:build verif
+// +build verif
+
+package spg
+
+import "sort"
+
+// Verification hooks, compiled only with the "verif" build tag. They give a
+// simulator outside the package ownership of the sources of nondeterminism
+// the package meets: the bound of each random draw (so that a scripted
+// crypto/rand.Reader can steer it), the order Go's map iteration assigns to
+// alphabet and word indices, the order in which NewWordList visits its map,
+// and cooperative scheduling points. With every hook variable nil (the
+// default) each function below is the identity, exactly as in verif_off.go.
+
+// VerifHookSet holds the simulator's callbacks. All nil by default.
+type VerifHookSet struct {
+	// NoteDraw is told the bound n of the bounded draw that is about to read
+	// the random source. It cannot alter the draw.
+	NoteDraw func(n uint32)
+	// OrderChars receives the real alphabet list built by Generate and returns
+	// the list in the order the simulator wants indices to mean.
+	OrderChars func(c []string) []string
+	// OrderWords does the same for the normalised word slice of NewWordList.
+	OrderWords func(w []string) []string
+	// VisitOrder receives the sorted keys of NewWordList's map before the
+	// twin-removal pass and returns the order in which they are to be visited
+	// (nil: native map order).
+	VisitOrder func(sortedKeys []string) []string
+	// Yield is a cooperative scheduling point.
+	Yield func(site string)
+}
+
+// VerifHooks is read by the hook functions; set it only while no other
+// goroutine is inside the package.
+var VerifHooks VerifHookSet
+
+func verifNoteDraw(n uint32) {
+	if h := VerifHooks.NoteDraw; h != nil {
+		h(n)
+	}
+}
+
+func verifOrderChars(c charList) charList {
+	if h := VerifHooks.OrderChars; h != nil {
+		return charList(h([]string(c)))
+	}
+	return c
+}
+
+func verifOrderWords(w []string) []string {
+	if h := VerifHooks.OrderWords; h != nil {
+		return h(w)
+	}
+	return w
+}
+
+// The visit-order hook runs NewWordList's real second pass once per scheduled
+// key: in pass k the native range is executed but only the k-th key of the
+// simulator's order is let through to the real loop body. Keys deleted by an
+// earlier visit are no longer produced by the native range, exactly as in
+// Go's own map-iteration semantics. Not safe for concurrent NewWordList calls.
+var verifVisitState struct {
+	active bool
+	order  []string
+	pass   int
+}
+
+func verifVisitBegin(unique map[string]bool) {
+	verifVisitState.active = false
+	h := VerifHooks.VisitOrder
+	if h == nil {
+		return
+	}
+	keys := make([]string, 0, len(unique))
+	for k := range unique {
+		keys = append(keys, k)
+	}
+	sort.Strings(keys)
+	order := h(keys)
+	if len(order) == 0 {
+		return
+	}
+	verifVisitState.active = true
+	verifVisitState.order = order
+	verifVisitState.pass = 0
+}
+
+func verifVisit(w string) bool {
+	if !verifVisitState.active {
+		return true
+	}
+	return verifVisitState.order[verifVisitState.pass] == w
+}
+
+func verifVisitMore() bool {
+	if !verifVisitState.active {
+		return false
+	}
+	verifVisitState.pass++
+	if verifVisitState.pass < len(verifVisitState.order) {
+		return true
+	}
+	verifVisitState.active = false
+	verifVisitState.order = nil
+	return false
+}
+
+func verifYield(site string) {
+	if h := VerifHooks.Yield; h != nil {
+		h(site)
+	}
+}
